@@ -93,7 +93,7 @@ def tviol(r):
 
 EXPORT_XZ = r'''
 StreamJ(s) == [check |-> s.check, limit |-> s.limit, dict |-> s.dict, hsize |-> s.hsize, units |-> s.units, calls |-> s.calls,
-               us |-> BlockUs(s.recs, 1), nrec |-> Len(s.recs), wf |-> WellFormedF(s.recs)]
+               us |-> BlockUs(s.recs, 1), nrec |-> Len(s.recs), wf |-> WellFormedF(s.recs), vli |-> VliClasses(s.recs)]
 Scn(t) == [tag |-> t, streams |-> [i \in 1..Len(streams) |-> StreamJ(streams[i])], pads |-> pads, trail |-> trail, multi |-> rd.multi,
            st |-> rd.st, out |-> rd.out, pos |-> rd.pos, nstreams |-> rd.nstreams, phase |-> phase]
 Export == (phase = "done") => PrintT(ToJson(Scn("scn")))
@@ -112,7 +112,7 @@ XConsumesExactly == Cex(ConsumesExactly)
 def xz_consts(variant=None, **kw):
     c = dict(CheckIds="{0,1}", LimitOpts="{0,1,3}", DictUnits=str(DICT_UNITS), HSizes="{12}", CSizes="{5,6,7,8}", MaxUnits="4",
              MaxWrite="4", MaxBlocks="3", AllowFlush="FALSE", MaxStreams="1", Pads="{0}", Trailings='{"none"}',
-             Multis="{FALSE,TRUE}")
+             Multis="{FALSE,TRUE}", VliBase="128")
     c.update(xz_variant(variant))
     c.update({k: str(v) for k, v in kw.items()})
     return c
@@ -204,7 +204,7 @@ def validate(trace_module, consts, events, invariants, shaped, timeout=900):
 
 TRACE_CONSTS_XZ = dict(CheckIds="{0}", LimitOpts="{0}", DictUnits="1", HSizes="{12}", CSizes="{5}", MaxUnits="2000000000",
                        MaxWrite="1", MaxBlocks="1000000", AllowFlush="TRUE", MaxStreams="1", Pads="{0}", Trailings='{"none"}',
-                       Multis="{FALSE}")
+                       Multis="{FALSE}", VliBase="128")
 
 
 def trace_consts_xz(variant=None):
@@ -1831,3 +1831,102 @@ def family_mt_units(ctx, j, quick, rnd):
             j.violation(pid, what, sig, {"scenario": rep, "source": "mt-random", "mt": True})
     ctx.add("mt_executions", len(scns))
     return scns, res
+
+
+# --------------------------------------------------------------------------- XZ index with many / large records (C02 C03)
+# The multibyte integers of the index (record count, unpadded size, uncompressed size) change their encoded length at 128
+# and 16384. XzContainer is model-checked with a small VliBase so that every combination of length classes is reached with
+# a handful of blocks; each class vector the model reaches is concretised with real block counts / sizes that put the real
+# base-128 encodings into the same classes.
+MANY_BLOCKS = {1: [1, 127], 2: [128, 129, 300], 3: [16384]}
+
+
+def many_scn(sid, classes, shape, rnd, nblocks, src="ours"):
+    """classes = (count length, unpadded length, uncompressed length) -> xz_write scenario (or forged input for the reader)."""
+    clen, ulen, dlen = classes
+    # uncompressed-size class: block size 100 bytes is not possible for full blocks (block_size >= dict >= 4096): class 1 only
+    # through a short last / only block; class 2: 4096-byte blocks; class 3: 65536-byte blocks
+    bsz = 65536 if dlen >= 3 else 4096
+    # unpadded-size class: zeros compress to < 100 bytes per block (1 byte), text to some hundred (2), random 64 KiB to > 16384 (3)
+    cls = "random" if ulen >= 3 else ("text" if ulen == 2 else "zeros")
+    if cls == "random":
+        bsz = 65536
+    total = nblocks * bsz if dlen >= 2 else (nblocks - 1) * bsz + 100
+    total = max(total, 0)
+    if shape == "one":
+        writes = [total]
+    else:
+        a = max(1, total // 3 + 1)
+        writes = [a, 1, max(0, total - a - 1)] if total > 2 else [total]
+    calls = [{"op": "write", "n": n} for n in writes if n > 0] + [{"op": "finish"}]
+    return {"id": sid, "fam": "xz_write", "seed": rnd.getrandbits(32), "class": cls, "calls": calls, "reads": [65536],
+            "opt": {"preset": 0, "dict": bsz, "check": rnd.choice(["none", "crc32", "crc64"]), "limit": bsz, "filters": []},
+            "want_blocks": nblocks, "vli": [clen, ulen, dlen]}
+
+
+def vli_len(v):
+    n = 1
+    while v >= 128:
+        v >>= 7
+        n += 1
+    return n
+
+
+def family_xz_many(ctx, j, quick, rnd, pool):
+    t0 = time.time()
+    # the model with base 2: 2 blocks need a 2-digit count, 4 blocks a 3-digit one
+    c = xz_consts(CheckIds="{0,1}", LimitOpts="{1,2}", DictUnits="1", HSizes="{12}", CSizes="{5}", MaxUnits="5", MaxWrite="5", MaxBlocks="6",
+                  Multis="{FALSE}", VliBase="2")
+    r = xz_model(c, XZ_INV + ["ExportW"], 2 if quick else 4, 900, True)
+    ctx.note_tlc("XzContainer design, multibyte length classes (VliBase 2)", r)
+    log(f"[tlc] XzContainer length classes: {r}")
+    if not r.ok:
+        raise ToolError(f"XzContainer (VliBase 2): TLC reports {r.violated}: the index size / padding rules of the model are inconsistent")
+    classes = collections.defaultdict(set)
+    for x in printed_json(r, "scn"):
+        st = x["streams"][0]
+        if st["units"] > 0:
+            classes[min(st["vli"][0], 3)].add("one" if sum(1 for (op, n) in st["calls"] if op == "w") == 1 else "many")
+    if set(classes) != {1, 2, 3}:
+        raise ToolError(f"the model did not reach all record-count length classes: {dict(classes)}")
+    scns = []
+    for clen in (1, 2, 3):
+        for nb in MANY_BLOCKS[clen]:
+            if clen == 3 and quick:
+                continue        # 16384 blocks through the real writer take minutes (one encoder per block): thorough tier only
+            for shape in sorted(classes[clen]):
+                for (ulen, dlen) in ((1, 2), (2, 2), (2, 1)) + (((3, 3),) if nb <= 129 and not quick or nb == 128 else ()):
+                    if (ulen, dlen) == (3, 3) and nb > 129:
+                        continue
+                    scns.append(many_scn(f"many-{nb}-{shape}-{ulen}{dlen}", (clen, ulen, dlen), shape, rnd, nb))
+    res = run_scenarios(scns)
+    log(f"[impl] xz_write (many blocks): {len(scns)} runs in {time.time()-t0:.1f}s")
+    small = []
+    for s, r1 in zip(scns, res):
+        judge_xz_write(j, s, r1, None, "length-classes")
+        if r1.get("outcome") != "ok":
+            continue
+        ix = [x for x in r1["recs"] if x["k"] == "Index"]
+        if ix:
+            recs = ix[0]["recs"]
+            got = [vli_len(len(recs)), max([vli_len(a) for a, b in recs] or [1]), max([vli_len(b) for a, b in recs] or [1])]
+            j.classes.add(("xz_many", tuple(got), len(recs)))
+            if got[0] != s["vli"][0] or len(recs) != s["want_blocks"]:
+                ctx.note_drift(f"xz_write {s['id']}: {len(recs)} index records (length classes {got}), intended {s['want_blocks']} ({s['vli']})")
+        if len(r1.get("recs", [])) <= 1500:
+            small.append((s, r1))
+    # reader side for the 3-byte record count: forged stream of 16400 tiny blocks (uncompressed chunks), confirmed by liblzma
+    n = 16400 * 4
+    fs = {"id": "many-forged-16400", "fam": "read", "fmt": "xz", "multi": False, "seed": 1, "reads": [65536], "want_recs": False,
+          "parts": [{"k": "xz", "src": "forge", "opt": {"preset": 0, "dict": 4096, "check": "crc32"}, "n": n, "class": "text", "seed": 1,
+                     "piece": 4096, "cuts": list(range(4, n, 4)), "hc": True, "hu": False}]}
+    fr = run_scenarios([fs])[0]
+    j.nruns += 1
+    if fr["outcome"] in ("build_err", "bad_family") or not fr.get("ref", {}).get("ok"):
+        raise ToolError(f"forged 16400-block stream is not accepted by liblzma: {fr.get('err')} {fr.get('ref')}")
+    j.classes.add(("xz_many", "forged", 16400, fr["outcome"]))
+    if not (fr["outcome"] == "eof" and fr["matched"] >= 1 and fr["out_len"] == n):
+        j.violation("C03", f"XZReader does not decode a valid stream of 16400 blocks (3-byte record count in the index) that liblzma decodes: "
+                           f"{fr['err'] or fr['outcome']}", {"family": "ref_to_ours", "fmt": "xz", "src": "forge", "blocks": "16400", "outcome": "decode"},
+                    {"scenario": fs, "source": "length-classes"})
+    return scns, res, small
